@@ -349,10 +349,10 @@ def passesValue : MsgSite → Bool
   | _ => true
 
 /-- script functions run while the message is built, when the offending value is an object with a scripted
-    toString: `fmt` formats a `Value` operand through `Value.String()` = ToString, which calls it (a throw inside
-    is swallowed by `Value.String`'s catchPanic, the call has happened all the same) -/
-def messageScriptCalls (s : MsgSite) : List String :=
-  if passesValue s then ["ts"] else []
+    toString: none.  error.go `describeOperands` replaces every operand that is an object Value by a text made
+    without script code (a function's source text as the built-in Function.prototype.toString gives it, any
+    other object as "[object <Class>]") before `fmt.Sprintf` sees it. -/
+def messageScriptCalls (_s : MsgSite) : List String := []
 
 /-! ## several errors alive at once -/
 
